@@ -40,11 +40,12 @@ func addHeaders(r *http.Request, cfg config.Proxy, stripPath string) error {
 	}
 
 	// set configurable ClientIPHeader
-	// X-Real-Ip is set later and X-Forwarded-For is set
-	// by the Go HTTP reverse proxy.
+	// X-Forwarded-For is set by the Go HTTP reverse proxy.
+	// X-Real-Ip named as the client ip header is overwritten like any
+	// other name: below it is only filled in when the client sent none,
+	// which would leave the header the upstream trusts to the client.
 	if cfg.ClientIPHeader != "" &&
-		cfg.ClientIPHeader != "X-Forwarded-For" &&
-		cfg.ClientIPHeader != "X-Real-Ip" {
+		cfg.ClientIPHeader != "X-Forwarded-For" {
 		r.Header.Set(cfg.ClientIPHeader, remoteIP)
 	}
 
